@@ -252,6 +252,7 @@ type c05Rsv struct {
 	phase   string // absent | pending | available | succeeded | failed | deleted   (the informer's view, as seen by H1)
 	node    string // status.nodeName in the informer's view
 	unsched bool
+	badOwners bool // the owner specification currently does not parse (an invalid selector operator): the reservation matches nobody and is not matchable until it is repaired
 	opt     int
 	obj     *schedulingv1alpha1.Reservation // the informer store's object (nil when absent / deleted)
 
@@ -355,7 +356,12 @@ func (s *c05Sys) rsvObj(r *c05Rsv) *schedulingv1alpha1.Reservation {
 				Spec: corev1.PodSpec{Containers: []corev1.Container{{Name: "main",
 					Resources: corev1.ResourceRequirements{Requests: c05RL(c05RsvUnits, c05RsvUnits)}}}},
 			},
-			Owners:         []schedulingv1alpha1.ReservationOwner{{LabelSelector: &metav1.LabelSelector{MatchLabels: map[string]string{c05OwnerLabel: "yes"}}}},
+			Owners: func() []schedulingv1alpha1.ReservationOwner {
+				if r.badOwners {
+					return []schedulingv1alpha1.ReservationOwner{{LabelSelector: &metav1.LabelSelector{MatchExpressions: []metav1.LabelSelectorRequirement{{Key: c05OwnerLabel, Operator: "NoSuchOperator", Values: []string{"yes"}}}}}}
+				}
+				return []schedulingv1alpha1.ReservationOwner{{LabelSelector: &metav1.LabelSelector{MatchLabels: map[string]string{c05OwnerLabel: "yes"}}}}
+			}(),
 			TTL:            &metav1.Duration{Duration: 0},
 			AllocateOnce:   d.allocOnce,
 			AllocatePolicy: d.policy,
@@ -458,7 +464,7 @@ func (r *c05Rsv) live() bool {
 }
 
 func (s *c05Sys) refMatchable(r *c05Rsv) bool {
-	return r.phase == "available" && !(r.def.isAllocOnce() && len(s.assigned(r)) > 0)
+	return r.phase == "available" && !r.badOwners && !(r.def.isAllocOnce() && len(s.assigned(r)) > 0)
 }
 
 // refFits: would a correct scheduler let p into r (used only to decide whether the scheduler can produce the assume)
@@ -564,6 +570,17 @@ func c05BuildOps() []c05Op {
 				r := s.rsv(rn)
 				s.rsvUpdate(r, func() { r.unsched = !r.unsched })
 			}})
+		if !d.isAllocOnce() && d.order == "" {
+			// the owner specification is broken by an update (it no longer parses) and repaired by the next one: a reservation
+			// that holds pods becomes unmatchable and matchable again (seed C05-8)
+			add(c05Op{name: "rsv.upd-owners-broken/repaired(" + rn + ")", kind: "rsv.upd-owners",
+				enabled: func(s *c05Sys) bool { return s.rsv(rn).phase == "available" },
+				apply: func(s *c05Sys) {
+					r := s.rsv(rn)
+					s.rsvUpdate(r, func() { r.badOwners = !r.badOwners })
+					s.h1Refreshed(r)
+				}})
+		}
 		if len(d.opts) > 1 {
 			add(c05Op{name: "rsv.upd-options(" + rn + ")", kind: "rsv.upd-options",
 				enabled: func(s *c05Sys) bool { r := s.rsv(rn); return r.phase == "pending" || r.phase == "available" },
@@ -810,7 +827,7 @@ func (s *c05Sys) Apply(op int, check bool) (bool, []mc.Violation) {
 var c05CounterNames = []string{
 	"ledger_checked_with_assigned_pods", "ledger_checked_with_several_pods", "ledger_checked_with_a_masked_dimension",
 	"diag_assigned_set_size_differs", "index_entries_checked", "listing_results_checked", "get_by_pod_hits",
-	"live_reservations_checked", "matchable_reservations_checked", "diag_matchable_index_lists_unmatchable",
+	"live_reservations_checked", "matchable_reservations_checked", "allocated_matchable_reservations_checked", "diag_matchable_index_lists_unmatchable",
 	"allocate_once_nominate_filter_asked", "allocate_once_nominate_filter_skipped_no_cycle_state", "diag_before_prefilter_failed",
 	"scheduling_cycles_run", "scheduling_cycles_run_for_a_non_owner_pod", "restore_path_matched", "cycle_nothing_nominated", "cycle_nominated", "states_with_exhausted_allocate_once", "selector_index_entries_checked", "selector_index_exact_key_entries_checked", "selector_index_live_matchable_checked",
 	"diag_reserve_did_not_assume",
@@ -1136,6 +1153,21 @@ func (s *c05Sys) judge() []mc.Violation {
 				}
 				viol = append(viol, s.v(class, r.def.name, fmt.Sprintf("reservation %s is live, available and has %d assigned pods, but it is not reachable through the matchable listing of %s (ListAllNodes(true)=%v)", r.def.name, len(s.assigned(r)), n, nodesTrue)))
 			}
+			// ... and, when it holds pods, its node is among the nodes with allocated reservations (ListAllNodes(false)):
+			// the index of "allocated available reservations" lists every live matchable reservation that has assigned pods,
+			// whichever of the two - becoming matchable, getting a pod - happened last (seed C05-8)
+			if len(s.assigned(r)) > 0 {
+				s.count("allocated_matchable_reservations_checked", 1)
+				inFalse := false
+				for _, x := range nodesFalse {
+					if x == n {
+						inFalse = true
+					}
+				}
+				if _, ok := c.allocatedOnNode[n][r.def.uid]; !ok || !inFalse {
+					viol = append(viol, s.v("allocated-reservation-missing-from-allocated-index"+after, r.def.name, fmt.Sprintf("reservation %s is live and matchable on %s and has %d assigned pods, but the allocated index does not list it (ListAllNodes(false)=%v)", r.def.name, n, len(s.assigned(r)), nodesFalse)))
+				}
+			}
 		}
 	}
 	for n, set := range c.matchableOnNode {
@@ -1422,7 +1454,7 @@ func (s *c05Sys) cacheString() string {
 func (s *c05Sys) refString() string {
 	var sb strings.Builder
 	for _, r := range s.rsvs {
-		fmt.Fprintf(&sb, "%s:%s@%s u=%v o=%d as=%s pl=%s h2=[", r.def.name, r.phase, r.node, r.unsched, r.opt, r.assumedNode, r.placed)
+		fmt.Fprintf(&sb, "%s:%s@%s u=%v o=%d as=%s pl=%s h2=[", r.def.name, r.phase, r.node, fmt.Sprint(r.unsched, r.badOwners), r.opt, r.assumedNode, r.placed)
 		for _, o := range r.h2 {
 			fmt.Fprintf(&sb, "%s@%s,", o.Status.Phase, o.Status.NodeName)
 		}
